@@ -167,7 +167,9 @@ def runEff (c : Cfg) (t : Term) : List Act :=
   let relR := if cap then [Act.close ⟨0, .r⟩] else []
   let last := c.n - 1
   match startAll c (att2 c t) with
-  | (acts, false, k) => pre ++ acts ++ relW ++ dropVec c [] noneWaited k ++ relR ++ [.ret false]
+  -- a failed start: `setup_communicate` (capture / communicate) drops its read end of the shared stderr pipe before the
+  -- commands started so far are dropped and waited for (fix F15)
+  | (acts, false, k) => pre ++ acts ++ relW ++ relR ++ dropVec c [] noneWaited k ++ [.ret false]
   | (acts, true, _) =>
     pre ++ acts ++ relW ++
     (match t with
